@@ -210,6 +210,115 @@ theorem fill_idle (s : SockW) (e : ESock) (r : RecvRes) (se : Bool)
       · simp [h]
 
 
+/-! ### end-of-stream is passed on by the callback that can pass it on -/
+
+/-- The tunnel's end-of-stream has reached the socket: nothing buffered for it, the tunnel side
+finished, so the socket's write side is shut. -/
+def EofDown (s : SockW) (w : MuxW) : Prop := w.shutR = true → w.buf = [] → s.shutW = true
+
+/-- The socket's end-of-stream has been passed to the tunnel. -/
+def EofUp (s : SockW) (w : MuxW) : Prop := s.shutR = true → s.buf = [] → w.shutW = true
+
+theorem muxCopyToSock_post (w : MuxW) (s : SockW) (e : ESock) (r : SendRes) (se : Bool) :
+    EofDown (muxCopyToSock w s e r se).2.1 (muxCopyToSock w s e r se).1 ∧
+    ((muxCopyToSock w s e r se).2.1.shutR = true → s.shutR = true ∨
+      ((muxCopyToSock w s e r se).2.1.shutW = true ∧
+        ((muxCopyToSock w s e r se).1.buf ≠ [] ∨ (muxCopyToSock w s e r se).1.shutR = true))) := by
+  have nwR : ∀ (s : SockW) (e : ESock), (s.nowrite e se).1.shutR = true → s.shutR = true ∨ (s.nowrite e se).1.shutW = true := by
+    intro s e h
+    have := (nowrite_fields s e se).1
+    exact Or.inr this
+  have tail : ∀ (w1 : MuxW) (s1 : SockW) (e1 : ESock),
+      (s1.shutR = true → s.shutR = true ∨ (s1.shutW = true ∧ w1.buf ≠ [] ∧ popEmpty w1.buf = w1.buf)) →
+      let x := (if ({ w1 with buf := popEmpty w1.buf } : MuxW).buf.isEmpty && ({ w1 with buf := popEmpty w1.buf } : MuxW).shutR then
+          (({ w1 with buf := popEmpty w1.buf } : MuxW), (s1.nowrite e1 se).1, (s1.nowrite e1 se).2)
+        else (({ w1 with buf := popEmpty w1.buf } : MuxW), s1, e1))
+      EofDown x.2.1 x.1 ∧ (x.2.1.shutR = true → s.shutR = true ∨ (x.2.1.shutW = true ∧ (x.1.buf ≠ [] ∨ x.1.shutR = true))) := by
+    intro w1 s1 e1 h1
+    simp only
+    split
+    next hc =>
+      simp only [Bool.and_eq_true] at hc
+      refine ⟨fun _ _ => (nowrite_fields s1 e1 se).1, fun _ => Or.inr ⟨(nowrite_fields s1 e1 se).1, Or.inr hc.2⟩⟩
+    next hc =>
+      refine ⟨?_, ?_⟩
+      · intro hr hb
+        exfalso; apply hc
+        simp only [Bool.and_eq_true]
+        exact ⟨by simp only at hb; rw [hb]; rfl, hr⟩
+      · intro hr
+        rcases h1 hr with h | ⟨h2, h3, h4⟩
+        · exact Or.inl h
+        · exact Or.inr ⟨h2, Or.inl (by simp only; rw [h4]; exact h3)⟩
+  unfold muxCopyToSock
+  cases hb : w.buf with
+  | nil => exact tail w s e (fun h => Or.inl h)
+  | cons b rest =>
+    simp only
+    by_cases hbe : b.isEmpty = true
+    · simp only [hbe, ↓reduceIte]; exact tail w s e (fun h => Or.inl h)
+    · simp only [hbe, Bool.false_eq_true, ↓reduceIte]
+      -- what uwrite does to shut_read: only through nowrite / seterr, which shut the write side too, and then the
+      -- chunk is still there (0 bytes taken)
+      have hu : ((s.uwrite e b r se).2.1.shutR = true → s.shutR = true ∨
+          ((s.uwrite e b r se).2.1.shutW = true ∧ (s.uwrite e b r se).1 = some 0)) := by
+        unfold SockW.uwrite
+        split
+        · exact fun h => Or.inl h
+        · simp only
+          split
+          · exact fun h => Or.inl h
+          · exact fun h => Or.inl h
+          · exact fun _ => Or.inr ⟨(nowrite_fields s e se).1, rfl⟩
+          · intro _
+            refine Or.inr ⟨?_, rfl⟩
+            exact (seterr_shut s e se).2.1
+      generalize s.uwrite e b r se = u at hu
+      obtain ⟨on, s1, e1⟩ := u
+      simp only at hu
+      cases on with
+      | none =>
+        apply tail w s1 e1
+        intro h
+        rcases hu h with h' | ⟨_, h2⟩
+        · exact Or.inl h'
+        · cases h2
+      | some n =>
+        apply tail { w with buf := b.drop n :: rest } s1 e1
+        intro h
+        rcases hu h with h' | ⟨h1, h2⟩
+        · exact Or.inl h'
+        · injection h2 with h2; subst h2
+          refine Or.inr ⟨h1, by simp, ?_⟩
+          simp only [List.drop_zero]
+          unfold popEmpty; rw [if_neg hbe]
+
+theorem sockCopyToMux_post (s : SockW) (w : MuxW) (m : MuxL) :
+    EofUp (sockCopyToMux s w m).1 (sockCopyToMux s w m).2.1 := by
+  have tail : ∀ (s1 : SockW) (m1 : MuxL),
+      let x := (if ({ s1 with buf := popEmpty s1.buf } : SockW).buf.isEmpty && ({ s1 with buf := popEmpty s1.buf } : SockW).shutR then
+          (({ s1 with buf := popEmpty s1.buf } : SockW), (w.nowrite m1).1, (w.nowrite m1).2)
+        else (({ s1 with buf := popEmpty s1.buf } : SockW), w, m1))
+      EofUp x.1 x.2.1 := by
+    intro s1 m1
+    simp only
+    split
+    · exact fun _ _ => (mwNowrite_fields w m1).1
+    next hc =>
+      intro hr hb
+      exfalso; apply hc
+      simp only [Bool.and_eq_true]
+      exact ⟨by simp only at hb; rw [hb]; rfl, hr⟩
+  unfold sockCopyToMux
+  cases hb : s.buf with
+  | nil => exact tail s m
+  | cons b rest =>
+    simp only
+    by_cases hbe : b.isEmpty = true
+    · simp only [hbe, ↓reduceIte]; exact tail s m
+    · simp only [hbe, Bool.false_eq_true, ↓reduceIte]
+      exact tail { s with buf := b.drop (w.uwrite m b).1 :: rest } (w.uwrite m b).2
+
 /-! ### the callback, stage by stage -/
 
 /-- The state just before the tail of the callback, for both wrapper orders. -/
@@ -304,6 +413,78 @@ theorem midStage_facts (sf : Bool) (s1 : SockW) (w : MuxW) (m : MuxL) (e1 : ESoc
     · intro hb hr
       exact muxCopyToSock_eof w2 s2 e1 io.send io.shutErr (by rw [g]; exact hb) (by rw [k.1]; exact hr)
 
+
+/-! ### the callback's post-condition on end-of-stream propagation -/
+
+/-- What holds of the two wrappers after the two copy stages: the tunnel's end-of-stream has reached
+the socket; the socket's end-of-stream has reached the tunnel, or the socket side has just been shut
+both ways with tunnel-side work left that the tail of the callback turns into the completion. -/
+def MidPost (s : SockW) (w : MuxW) : Prop :=
+  EofDown s w ∧
+  (s.shutR = true → s.buf = [] → w.shutW = true ∨ (s.shutW = true ∧ (w.buf ≠ [] ∨ w.shutR = true)))
+
+theorem midStage_post (sf : Bool) (s1 : SockW) (w : MuxW) (m : MuxL) (e1 : ESock) (io : CbIo) :
+    MidPost (midStage sf s1 w m e1 io).1 (midStage sf s1 w m e1 io).2.1 := by
+  cases sf
+  · simp only [midStage, Bool.false_eq_true, ↓reduceIte]
+    have a := muxCopyToSock_post w s1 e1 io.send io.shutErr
+    generalize muxCopyToSock w s1 e1 io.send io.shutErr = y at a
+    obtain ⟨w2, s2, e2⟩ := y
+    simp only at a ⊢
+    have d := sockCopyToMux_sw s2 w2 m
+    have g := sockCopyToMux_mwbuf s2 w2 m
+    have k := sockCopyToMux_mw s2 w2 m
+    have up := sockCopyToMux_post s2 w2 m
+    generalize sockCopyToMux s2 w2 m = x at d g k up
+    obtain ⟨s3, w3, m3⟩ := x
+    simp only at d g k up ⊢
+    refine ⟨?_, ?_⟩
+    · intro hr hb
+      rw [d.2.1]
+      exact a.1 (by rw [← k.1]; exact hr) (by rw [← g]; exact hb)
+    · intro hr hb
+      exact Or.inl (up hr hb)
+  · simp only [midStage, ↓reduceIte]
+    have up := sockCopyToMux_post s1 w m
+    generalize sockCopyToMux s1 w m = x at up
+    obtain ⟨s2, w2, m2⟩ := x
+    simp only at up ⊢
+    have a := muxCopyToSock_post w2 s2 e1 io.send io.shutErr
+    have b := muxCopyToSock_swbuf w2 s2 e1 io.send io.shutErr
+    have c := muxCopyToSock_mw w2 s2 e1 io.send io.shutErr
+    generalize muxCopyToSock w2 s2 e1 io.send io.shutErr = y at a b c
+    obtain ⟨w3, s3, e3⟩ := y
+    simp only at a b c ⊢
+    refine ⟨a.1, ?_⟩
+    intro hr hb
+    rcases a.2 hr with h | h
+    · left
+      rw [c.2.1]
+      exact up h (by rw [← b.1]; exact hb)
+    · exact Or.inr h
+
+theorem cleanup_post (q : ProxyS) (m : MuxL) (e : ESock) (se : Bool) (h : MidPost q.sw q.mw) :
+    EofUp (q.cleanup m e se).1.sw (q.cleanup m e se).1.mw ∧ EofDown (q.cleanup m e se).1.sw (q.cleanup m e se).1.mw := by
+  obtain ⟨⟨sb, sr, sw, sc, sx⟩, ⟨wc, wb, wr, ww⟩, pok, sf⟩ := q
+  obtain ⟨h1, h2⟩ := h
+  simp only [EofDown] at h1
+  simp only at h2
+  cases sf <;> cases sw <;> cases ww <;> cases wr <;> cases sr <;> cases sb <;> cases wb <;> cases se <;>
+    simp_all [EofUp, EofDown, ProxyS.cleanup, ProxyS.dropSock, ProxyS.dropMux, ProxyS.preSelectFlags, ProxyS.finish,
+      MuxW.noread, MuxW.nowrite, SockW.noread, SockW.nowrite]
+
+/-- **After every callback, every end-of-stream that can be passed on has been passed on**: the
+socket's (read side shut, nothing buffered ⇒ the tunnel-side writer is shut, i.e. EOF queued) and
+the tunnel's (tunnel side finished, nothing buffered ⇒ the socket's write side is shut). -/
+theorem callback_eof_post (p : ProxyS) (m : MuxL) (e : ESock) (io : CbIo) (p' : ProxyS) (m' : MuxL) (e' : ESock)
+    (h : p.callback m e io = .ok p' m' e') : EofUp p'.sw p'.mw ∧ EofDown p'.sw p'.mw := by
+  obtain ⟨s0, e0, _, hcl⟩ := callback_stages p m e io p' m' e' h
+  simp only at hcl
+  have hm := midStage_post p.sockFirst (s0.fill e0 io.recv io.shutErr).1 p.mw m (s0.fill e0 io.recv io.shutErr).2 io
+  generalize midStage p.sockFirst (s0.fill e0 io.recv io.shutErr).1 p.mw m (s0.fill e0 io.recv io.shutErr).2 io = x at hm hcl
+  have := cleanup_post { p with sw := x.1, mw := x.2.1 } x.2.2.1 x.2.2.2 io.shutErr hm
+  rw [hcl] at this
+  exact this
 
 /-! ### a callback that changes nothing -/
 
